@@ -21,8 +21,10 @@ from typing import Any, Iterable, Optional, Sequence
 
 VERIF = Path(__file__).resolve().parent.parent
 SPEC = VERIF / "spec"
-EVIDENCE = VERIF / "evidence"
 REPO = Path(os.environ.get("VERIF_REPO", "/repo"))
+# runs against a scratch worktree (VERIF_REPO=..., used to try seeded changes) must not overwrite the evidence of
+# the tree under verification
+EVIDENCE = (VERIF / "evidence") if REPO == Path("/repo") else Path(os.environ.get("VERIF_EVIDENCE_DIR", "/tmp/verif-evidence-" + REPO.name))
 GUARD = "PYANALYZE_VERIF"
 NCPU = min(16, os.cpu_count() or 4)
 
@@ -448,7 +450,7 @@ class Check:
         }
         if not self.cov["samples"]:
             self.cov["samples"].append("no samples recorded")
-        EVIDENCE.mkdir(exist_ok=True)
+        EVIDENCE.mkdir(parents=True, exist_ok=True)
         (EVIDENCE / f"{self.prop}.json").write_text(json.dumps(ev, indent=1, default=str) + "\n")
         return 1 if self.violations else 0
 
